@@ -44,9 +44,44 @@ def rec_dgram(data):
     return {"op": "dgram", "input": list(data), "out": out, "msgs": p.got}
 
 
+def notification_datagrams(rng, n):
+    """datagrams the library itself assembles from several messages: the notifications of an eventgroup with 1..5 events"""
+    import someip.service as service
+    from ..vloop import FakeTransport, new_loop
+    out = []
+    for _ in range(n):
+        loop = new_loop()
+        sent = []
+
+        class Svc(service.SimpleService):
+            service_id = rng.choice([0x1111, 0xFFFE, 1])
+            version_major = rng.choice([1, 0, 0xFE])
+            version_minor = 0
+        values = {ev: rng.randbytes(rng.choice([0, 1, 3, 9, 40])) for ev in rng.sample(range(1, 0x7FFF), rng.randint(1, 5))}
+
+        async def go():
+            svc = Svc(1)
+            svc.transport = FakeTransport(lambda d, a: sent.append(bytes(d)))
+            eg = service.SimpleEventgroup(svc, id=1)
+            eg.values = dict(values)
+            svc.register_eventgroup(eg)
+            eg.subscribe(hdr.IPv4EndpointOption(__import__("ipaddress").IPv4Address("192.0.2.77"), hdr.L4Protocols.UDP, 40000))
+            for _ in range(4):
+                await __import__("asyncio").sleep(0)
+        loop.run_until_complete(go())
+        loop.shutdown()
+        for data in sent:
+            r = rec_dgram(data)
+            r["sent"] = [codec.msg_j(hdr.SOMEIPHeader(service_id=Svc.service_id, method_id=0x8000 | ev, client_id=0, session_id=i + 1,
+                                                      interface_version=Svc.version_major, message_type=hdr.SOMEIPMessageType.NOTIFICATION,
+                                                      payload=values[ev])) for i, ev in enumerate(values)]
+            out.append(r)
+    return out
+
+
 def records(ctx):
     rng = random.Random("c01/%s" % ctx.seed)
-    recs = []
+    recs = notification_datagrams(rng, ctx.pick(40, 400))
     dom = list(boundary_domain())
     for m in (rng.sample(dom, 2500) if ctx.quick else dom):
         recs.append(rec_build(m))
